@@ -56,10 +56,14 @@ theorem Sat.gain {a : AS} {x : Facts} {s : St} (h : Sat a s) (hx : Holds x s) : 
 
 /-! ## tests -/
 
-def fR : Facts := ⟨false, false, true, false⟩
-def fT : Facts := ⟨false, false, false, true⟩
-def fS : Facts := ⟨true, false, false, false⟩
-def fV : Facts := ⟨false, true, false, false⟩
+def fR : Facts := ⟨false, false, true, false, false, false⟩
+def fT : Facts := ⟨false, false, false, true, false, false⟩
+def fS : Facts := ⟨true, false, false, false, false, false⟩
+def fV : Facts := ⟨false, true, false, false, false, false⟩
+def fC : Facts := ⟨false, false, false, false, true, false⟩
+def fM : Facts := ⟨false, false, false, false, false, true⟩
+/-- what the absence of an iptables change gives -/
+def fTM : Facts := ⟨false, false, false, true, false, true⟩
 
 /-- facts in the then- and in the else-branch of a test; `sim`, `cmp`: the values of
 `env.simulated` and `env.compare` -/
@@ -68,7 +72,7 @@ def split (sim cmp : Bool) : Cond → AS → Option AS × Option AS
   | .not c, a => ((split sim cmp c a).2, (split sim cmp c a).1)
   | .hasChanges, a => (some a, some (a.gain .top))
   | .planNonEmpty, a => (some a, some (a.gain fR))
-  | .ipt, a => (some a, some (a.gain fT))
+  | .ipt, a => (some a, some (a.gain fTM))
   | .simulated, a => if sim then (some a, none) else (none, some a)
   | .isCompare, a => if cmp then (some a, none) else (none, some a)
   | .never, a => (none, some a)
@@ -102,12 +106,13 @@ theorem split_sound (sim cmp : Bool) (env : Env) (hs : env.simulated = sim) (hc 
     simp only [evalCond, split]
     refine ⟨fun _ => ⟨_, rfl, h⟩, fun e => ⟨_, rfl, h.gain ?_⟩⟩
     simp only [Bool.not_eq_false'] at e
-    exact ⟨by simp [fR], by simp [fR], fun _ => by unfold SavedR; rw [e]; simp, by simp [fR]⟩
+    exact ⟨by simp [fR], by simp [fR], fun _ => by unfold SavedR; rw [e]; simp, by simp [fR], by simp [fR], by simp [fR]⟩
   | ipt =>
     intro a h
     simp only [evalCond, split]
     refine ⟨fun _ => ⟨_, rfl, h⟩, fun e => ⟨_, rfl, h.gain ?_⟩⟩
-    exact ⟨by simp [fT], by simp [fT], by simp [fT], fun _ => by unfold SavedT; rw [e]; simp⟩
+    exact ⟨by simp [fTM], by simp [fTM], by simp [fTM], fun _ => by unfold SavedT; rw [e]; simp, by simp [fTM],
+      fun _ => by unfold MvSent; rw [e]; simp⟩
   | simulated =>
     intro a h
     simp only [evalCond, split, hs]
@@ -149,7 +154,9 @@ def asaSaveBlock : Sess :=
 
 def saveBlocks : List (Sess × Blk) := [
   (asaSaveBlock, .gainRun fV), (iosWriteMem, .gainRun fV), (panosCommit, .gainF0 fV),
-  (scpBlock "iptables", .gainRun fT), (scpBlock "routing", .gainRun fR) ]
+  (scpBlock "iptables", .gainRun fT), (scpBlock "routing", .gainRun fR),
+  (.ite .hasChanges "" (.mark .logChanged) .skip, .gainRun fC),
+  (linuxCmd .change (.lit "mv -f /etc/network/packet-filter.new /etc/network/packet-filter") ["_"], .gainRun fM) ]
 
 def sendLoops : List Sess := [
   .forEach (asaCmd .change .cur ["_"]), .forEach (iosCmd .change .cur ["_"]), .forEach (linuxCmd .change .cur ["_"]),
@@ -174,7 +181,10 @@ def ana (sim cmp : Bool) : Sess → AS → Res
       | .nil => ⟨a.f0.meet a.f1, .top⟩
       | .err => ⟨.top, a.f0.meet a.f1⟩
       | _ => a⟩
-  | .ite c _ t e, a =>
+  | .ite c l t e, a =>
+    match lookupBlk (.ite c l t e) with
+    | some k => k.res a
+    | none =>
     let rt : Res := match (split sim cmp c a).1 with | some x => ana sim cmp t x | none => ⟨.top, .top⟩
     let re : Res := match (split sim cmp c a).2 with | some x => ana sim cmp e x | none => ⟨.top, .top⟩
     ⟨rt.run.meet re.run, rt.ret.meet re.ret⟩
@@ -212,7 +222,7 @@ structure BlkOK (q : Sess) (k : Blk) : Prop where
     | .gainF0 x => (exec q env s).errv = false → Holds x (exec q env s)
 
 theorem holds_fV {s : St} (h : saveConfirmed s.tr = true) : Holds fV s :=
-  ⟨by simp [fV], fun _ _ => h, by simp [fV], by simp [fV]⟩
+  ⟨by simp [fV], fun _ _ => h, by simp [fV], by simp [fV], by simp [fV], by simp [fV]⟩
 
 /-- the scp of a start-up file ends in normal mode only after the copy succeeded -/
 theorem scp_confirmed_if_completes (w : String) (env : Env) (s : St) (hm : s.mode = .run)
@@ -234,14 +244,32 @@ theorem scp_confirmed_if_completes (w : String) (env : Env) (s : St) (hm : s.mod
 theorem saveBlocks_ok : ∀ q k, (q, k) ∈ saveBlocks → BlkOK q k := by
   intro q k h
   simp only [saveBlocks, List.mem_cons, List.mem_nil_iff, or_false, Prod.mk.injEq] at h
-  rcases h with ⟨rfl, rfl⟩ | ⟨rfl, rfl⟩ | ⟨rfl, rfl⟩ | ⟨rfl, rfl⟩ | ⟨rfl, rfl⟩
+  rcases h with ⟨rfl, rfl⟩ | ⟨rfl, rfl⟩ | ⟨rfl, rfl⟩ | ⟨rfl, rfl⟩ | ⟨rfl, rfl⟩ | ⟨rfl, rfl⟩ | ⟨rfl, rfl⟩
   · exact ⟨by decide, by decide, fun env s hm he => holds_fV (asa_saved_if_completes env s hm he)⟩
   · exact ⟨by decide, by decide, fun env s hm he => holds_fV (ios_saved_if_completes env s hm he)⟩
   · exact ⟨by decide, by decide, fun env s hm he herr => holds_fV (panos_saved_if_commit_returns_nil env s hm he herr)⟩
   · exact ⟨by decide, by decide, fun env s hm he =>
-      ⟨by simp [fT], by simp [fT], by simp [fT], fun _ _ => scp_confirmed_if_completes "iptables" env s hm he⟩⟩
+      ⟨by simp [fT], by simp [fT], by simp [fT], fun _ _ => scp_confirmed_if_completes "iptables" env s hm he, by simp [fT], by simp [fT]⟩⟩
   · exact ⟨by decide, by decide, fun env s hm he =>
-      ⟨by simp [fR], by simp [fR], fun _ _ => scp_confirmed_if_completes "routing" env s hm he, by simp [fR]⟩⟩
+      ⟨by simp [fR], by simp [fR], fun _ _ => scp_confirmed_if_completes "routing" env s hm he, by simp [fR], by simp [fR], by simp [fR]⟩⟩
+  · refine ⟨by decide, by decide, fun env s hm _ => ⟨by simp [fC], by simp [fC], by simp [fC], by simp [fC], fun _ => ?_, by simp [fC]⟩⟩
+    unfold ChangedLogged
+    by_cases hc : (!s.plan.isEmpty || s.ipt) = true
+    · simp [exec, hm, evalCond, hc]
+    · simp [exec, hm, evalCond, hc]
+  · refine ⟨by decide, by decide, fun env s hm _ => ⟨by simp [fM], by simp [fM], by simp [fM], by simp [fM], by simp [fM], fun _ _ => ?_⟩⟩
+    have := cs_console_cmd_txt "cmd" ["_"] (.lit "mv -f /etc/network/packet-filter.new /etc/network/packet-filter")
+      (linuxCheck .change ;; .ite .joined "c2 != \"\"" (linuxCheck .change) .skip ;;
+       GetCmdOutput .probe (.lit "echo $?") ["echo $?"] ;;
+       .ite (.not (.flag .status0)) "s.conn.GetCmdOutput(\"echo $?\") != \"0\\n\""
+         (.abort ["%s failed (exit status)", "_"]) .skip) (by decide) env s hm
+    rw [show exec (linuxCmd .change (.lit "mv -f /etc/network/packet-filter.new /etc/network/packet-filter") ["_"]) env s
+        = exec (.call "cmd" ["_"] (Send .change (.lit "mv -f /etc/network/packet-filter.new /etc/network/packet-filter") ;;
+            (linuxCheck .change ;; .ite .joined "c2 != \"\"" (linuxCheck .change) .skip ;;
+             GetCmdOutput .probe (.lit "echo $?") ["echo $?"] ;;
+             .ite (.not (.flag .status0)) "s.conn.GetCmdOutput(\"echo $?\") != \"0\\n\""
+               (.abort ["%s failed (exit status)", "_"]) .skip))) env s from rfl, this]
+    simp [Txt.lines]
 
 theorem lookupBlk_ok {p : Sess} {k : Blk} (h : lookupBlk p = some k) : BlkOK p k := by
   simp only [lookupBlk, Option.map_eq_some_iff] at h
@@ -261,7 +289,7 @@ theorem sendLoops_ok : ∀ q ∈ sendLoops, ∀ env s, s.mode = .run → (exec q
   have key : ∀ (h : (exec q env s).plan = s.plan),
       (∃ new, changeSends (exec q env s).tr = changeSends s.tr ++ new ∧ s.plan.Sublist new) → Holds fS (exec q env s) := by
     intro hp ⟨new, hc, hsub⟩
-    refine ⟨fun _ => ?_, by simp [fS], by simp [fS], by simp [fS]⟩
+    refine ⟨fun _ => ?_, by simp [fS], by simp [fS], by simp [fS], by simp [fS], by simp [fS]⟩
     unfold SentAll
     rw [hp, hc]
     exact hsub.trans (List.sublist_append_right _ _)
@@ -395,8 +423,12 @@ theorem ana_sound (sim cmp : Bool) (p : Sess) :
       exact ⟨fun h => (by cases h), fun _ => ha.congr rfl rfl rfl rfl⟩
   | ite c l t e iht ihe =>
     intro a env s hs hc hm ha
+    simp only [ana]
+    split
+    · rename_i k hk
+      exact blk_post _ k (lookupBlk_ok hk) a env s hm ha
     have hsp := split_sound sim cmp env hs hc s c a ha
-    simp only [exec, hm, if_true, ana]
+    simp only [exec, hm, if_true]
     by_cases hcond : evalCond c env s = true
     · obtain ⟨x, hx, hsat⟩ := hsp.1 hcond
       have := iht x env s hs hc hm hsat
